@@ -26,7 +26,7 @@ TECHNIQUE = "runtime monitoring: conservation oracles (resultant force/moment ab
 def cases(tier, seed):
     rng = np.random.default_rng(11000 + seed)
     out = []
-    n = 80 if tier == "quick" else 800
+    n = 80 if tier == "quick" else 2400
     for k in range(n):
         half = str(rng.choice(["left", "right", "full"]))
         spec = M.random_spec(rng, half=half, nx=int(rng.integers(2, 6)), ny=int(rng.integers(2, 10)), odd_full=False)
@@ -36,7 +36,7 @@ def cases(tier, seed):
         if k % 8 == 1:
             fo = 1.0
         out.append(dict(kind="load", mesh=spec, fem="tube" if k % 3 else "wingbox", fem_origin=fo, seed=int(rng.integers(1 << 30))))
-    n = 20 if tier == "quick" else 160
+    n = 20 if tier == "quick" else 480
     for k in range(n):
         nsurf = int(rng.choice([1, 2, 3]))
         surfs = []
@@ -49,13 +49,13 @@ def cases(tier, seed):
         out.append(dict(kind="mpf", surfaces=surfs, compressible=bool(k % 2),
                         flow=dict(alpha=float(np.round(rng.uniform(-10, 12), 2)), beta=0.0 if symc else float(np.round(rng.uniform(-10, 10), 2)),
                                   v=float(rng.uniform(30, 250)), rho=float(rng.uniform(0.3, 1.2)), Mach_number=float(np.round(rng.uniform(0.1, 0.85), 3))), _cost=3))
-    n = 40 if tier == "quick" else 300
+    n = 40 if tier == "quick" else 900
     for k in range(n):
         half = str(rng.choice(["left", "full"]))
         spec = M.random_spec(rng, half=half, nx=int(rng.integers(2, 6)), ny=int(rng.integers(2, 10)), odd_full=False)
         out.append(dict(kind="disp", mesh=spec, fem="tube" if k % 3 else "wingbox", fem_origin=float(np.round(rng.random(), 3)) if k % 6 else 0.0,
                         seed=int(rng.integers(1 << 30))))
-    n = 6 if tier == "quick" else 40
+    n = 6 if tier == "quick" else 120
     for k in range(n):
         half = "left" if k % 3 else "full"
         spec = M.random_spec(rng, half=half, nx=int(rng.integers(2, 4)), ny=int(rng.integers(3, 8)))
